@@ -34,6 +34,13 @@ def busOp (op : String) (j : Json) : Except String Json := do
     match groupLegacy swbs brs with
     | none => return Json.null
     | some r => return obj [("labels", natsJ (swbs.map r.1)), ("no_bus", natJ r.2)]
+  | "bus.set_status" =>
+    let cur ← (← jArr (← fld j "cur")).mapM jBools
+    let ups ← (← jArr (← fld j "updates")).mapM fun e => do
+      return ((← jNat (← fld e "number")), (← jBools (← fld e "row")))
+    match setStatus cur ups with
+    | none => return Json.null
+    | some st => return Json.arr (st.map boolsJ).toArray
   | _ => throw s!"unknown op {op}"
 
 end Driver
